@@ -19,8 +19,10 @@ structure DState where
   cfg : List (List Bool × List Bool × List Op)
   started : Bool
   s : State
+  /-- per thread: number of completed operations -/
+  opi : List Nat
 
-def dinit : DState := { cfg := [], started := false, s := init [] }
+def dinit : DState := { cfg := [], started := false, s := init [], opi := [] }
 
 def parseBits (w : String) : Option (List Bool) :=
   if w = "-" then some []
@@ -48,6 +50,7 @@ def actName : Act → String
   | .tau => "tau"
   | .incHard => "fetch_add hard"
   | .decHard => "fetch_sub hard"
+  | .undoHard => "fetch_sub hard"
   | .incSoft => "fetch_add soft"
   | .decSoft => "fetch_sub soft"
   | .tas => "test_and_set lock"
@@ -57,13 +60,49 @@ def actName : Act → String
   | .freeData => "free data"
   | .use => "use mem"
 
-def fuelOf (s : State) (tid : Nat) : Nat :=
-  match s.ts[tid]? with
-  | some t => 2 * t.prog.length + 4
-  | none => 0
+def target (t : Thread) : Op → Bool
+  | .share _ j => slot t.sh j
+  | .reset j => slot t.sh j
+  | .wfrom _ w => slot t.wk w
+  | .lock _ j => slot t.sh j
+  | .wreset w => slot t.wk w
+  | .use j => slot t.sh j
 
-def settleAll (s : State) : State :=
-  (List.range s.ts.length).foldl (fun s tid => settle (fuelOf s tid) s tid) s
+/-- Thread-local code of thread `tid` up to its next micro-step.  `inside`: the
+thread is inside operation number `k` of its program `prog`.  Returns the new
+state, the number of completed operations and the completion records
+`tid.k:r` (r = the operation's target object is non-NULL afterwards). -/
+def advance (prog : List Op) (tid : Nat) : Nat → State → Bool → Nat → List String → State × Nat × List String
+  | 0, s, _, k, acc => (s, k, acc)
+  | fuel + 1, s, inside, k, acc =>
+    match s.ts[tid]? with
+    | none => (s, k, acc)
+    | some t =>
+      match t.pc with
+      | .idle =>
+        let (k, acc) :=
+          if inside then
+            (k + 1, acc ++ [toString tid ++ "." ++ toString k ++ ":" ++
+              (match prog[k]? with
+               | some op => if target t op then "1" else "0"
+               | none => "?")])
+          else (k, acc)
+        match stepL s tid with
+        | some (_, s') => advance prog tid fuel s' true k acc
+        | none => (s, k, acc)
+      | .fin _ =>
+        match stepL s tid with
+        | some (_, s') => advance prog tid fuel s' inside k acc
+        | none => (s, k, acc)
+      | _ => (s, k, acc)
+
+def doneStr (acc : List String) : String :=
+  " | done=" ++ (if acc.isEmpty then "-" else ",".intercalate acc)
+
+def progOf (d : DState) (tid : Nat) : List Op :=
+  match d.cfg[tid]? with
+  | some c => c.2.2
+  | none => []
 
 def dstep (d : DState) (ws : List String) : DState × String :=
   let bad := (d, "STOP bad-op")
@@ -75,21 +114,29 @@ def dstep (d : DState) (ws : List String) : DState × String :=
     | _, _, _ => bad
   | ["start"] =>
     if d.started then bad else
-    let s := settleAll (init d.cfg)
-    ({ d with started := true, s := s }, "ok | " ++ events s.g ++ " | fin=" ++ finBits s)
+    let s0 := init d.cfg
+    let (s, opi, acc) := (List.range s0.ts.length).foldl
+      (fun (st : State × List Nat × List String) tid =>
+        let (s, opi, acc) := st
+        let prog := progOf d tid
+        let (s', k, acc') := advance prog tid (2 * prog.length + 4) s false 0 acc
+        (s', opi ++ [k], acc')) (s0, [], [])
+    ({ d with started := true, s := s, opi := opi },
+     "ok | " ++ events s.g ++ " | fin=" ++ finBits s ++ doneStr acc)
   | ["sched", t] =>
     match t.toNat? with
     | none => bad
     | some tid =>
       if !d.started || tid ≥ d.s.ts.length then bad else
       match stepL d.s tid with
-      | none => (d, toString tid ++ " none | " ++ events d.s.g ++ " | fin=" ++ finBits d.s)
+      | none => (d, toString tid ++ " none | " ++ events d.s.g ++ " | fin=" ++ finBits d.s ++ doneStr [])
       | some (l, s1) =>
         if s1.g.bad ≠ d.s.g.bad then (d, "STOP asan") else
-        let s2 := settle (fuelOf s1 tid) s1 tid
-        ({ d with s := s2 },
+        let prog := progOf d tid
+        let (s2, k, acc) := advance prog tid (2 * prog.length + 4) s1 true (d.opi.getD tid 0) []
+        ({ d with s := s2, opi := d.opi.set tid k },
          toString tid ++ " " ++ actName l.act ++ " " ++ toString l.val ++ " | " ++ events s2.g
-           ++ " | fin=" ++ finBits s2)
+           ++ " | fin=" ++ finBits s2 ++ doneStr acc)
   | ["end"] =>
     if !d.started then bad else
     let objs := " ".intercalate (d.s.ts.map (fun t => bits t.sh ++ "/" ++ bits t.wk))
